@@ -58,9 +58,9 @@ deriving Repr, DecidableEq
 
 /-- the offset test exactly as written: `not offset.strip().isnumeric() or int(offset) != 0` -/
 def offsetRejected (o : String) : Bool :=
-  let t := o.trimAscii.toString
-  if t.isEmpty || !(t.toList.all Char.isDigit) then true
-  else match Decimal.digitsToNat t.toList with
+  let t := Decimal.trimList o.toList
+  if t.isEmpty || !(t.all Char.isDigit) then true
+  else match Decimal.digitsToNat t with
     | some n => n != 0
     | none => true
 
